@@ -4,13 +4,17 @@
 //
 // Ops of one case (one tunnel):
 //
-//	open <route> <lst> <tgt> <early> <banner> <seedC> <seedT>
+//	open <route> <lst> <tgt> <early> <banner> <seedC> <seedT> [<timeoutMs>]
 //	    route: direct | via (second martian as downstream proxy) | viafake (raw downstream proxy that
 //	           answers "200 Connection established" and <banner> tunnel bytes in ONE write)
 //	    lst:   tcp | plain | tls   - what kind of net.Conn the proxy under test accepts
 //	    tgt:   tcp | plain         - what kind of net.Conn its dial returns
 //	    early: bytes the client sends in the same write as the CONNECT head
 //	    banner: bytes the target writes as soon as it has accepted
+//	    timeoutMs: Proxy.SetTimeout of the proxy under test (default 30 s, longer than any case)
+//	outlive <chunk> <seed>           the client writes <chunk> bytes every 40 ms until the tunnel is older than
+//	                                 the proxy's timeout (never idle): are they all forwarded? (open finding
+//	                                 c04:active-tunnel-cut-at-timeout; the model is told where the cut fell)
 //	unreach <route> <lst>            CONNECT to a port nobody listens on
 //	send <nC> <nT> <chunkseed>       client writes nC and target writes nT further bytes, concurrently; waits
 //	                                 until both have been received (quiescence)
@@ -294,6 +298,8 @@ type ex struct {
 	warning   bool
 	opened    bool
 	released  string
+	openedAt  time.Time     // just before the client connected (handleLoop arms its deadline after Accept)
+	timeout   time.Duration // Proxy.SetTimeout of the proxy under test
 }
 
 // After maxFailures confirmed oracle failures the remaining generated cases of the main pass are
@@ -353,13 +359,13 @@ func (e *ex) listen() (net.Listener, bool) {
 	return l, true
 }
 
-func (e *ex) newProxy(lst, tgt string, down string) (string, bool) {
+func (e *ex) newProxy(lst, tgt string, down string, timeout time.Duration) (string, bool) {
 	l, ok := e.listen()
 	if !ok {
 		return "", false
 	}
 	p := martian.NewProxy()
-	p.SetTimeout(idleTimeout)
+	p.SetTimeout(timeout)
 	if down != "" {
 		p.SetDownstreamProxy(&url.URL{Host: down})
 	}
@@ -632,11 +638,15 @@ func (e *ex) do(op string) core.Result {
 			}
 			route, lst, tgt = f[1], f[2], "tcp"
 		} else {
-			if len(f) != 8 {
+			if len(f) != 8 && len(f) != 9 {
 				return core.Result{Impl: "bad-op"}
 			}
 			route, lst, tgt = f[1], f[2], f[3]
 			early, banner, seedC, seedT = atoi(f[4]), atoi(f[5]), atoi(f[6]), atoi(f[7])
+		}
+		e.timeout = idleTimeout
+		if len(f) == 9 && atoi(f[8]) >= 500 && atoi(f[8]) <= 30000 {
+			e.timeout = time.Duration(atoi(f[8])) * time.Millisecond
 		}
 		core.Count("route:" + route)
 		core.Count("lst:" + lst)
@@ -667,7 +677,7 @@ func (e *ex) do(op string) core.Result {
 		down := ""
 		switch route {
 		case "via":
-			down, ok = e.newProxy("tcp", "tcp", "")
+			down, ok = e.newProxy("tcp", "tcp", "", idleTimeout)
 		case "viafake":
 			down, ok = e.fakeProxy(banner)
 		case "direct":
@@ -677,10 +687,11 @@ func (e *ex) do(op string) core.Result {
 		if !ok {
 			return core.Result{Impl: "setup-failed", Fail: "listen failed", Sig: "c04:setup"}
 		}
-		paddr, ok := e.newProxy(lst, tgt, down)
+		paddr, ok := e.newProxy(lst, tgt, down, e.timeout)
 		if !ok {
 			return core.Result{Impl: "setup-failed", Fail: "listen failed", Sig: "c04:setup"}
 		}
+		e.openedAt = time.Now()
 		cc, craw, err := dialClient(paddr, lst)
 		if err != nil {
 			return core.Result{Impl: "setup-failed", Fail: "client dial: " + err.Error(), Sig: "c04:setup"}
@@ -801,6 +812,46 @@ func (e *ex) do(op string) core.Result {
 		e.waitDelivered()
 		res := e.checkDelivery("send")
 		res.Impl = e.obs()
+		return res
+
+	case "outlive":
+		if !e.opened || len(f) != 3 || atoi(f[1]) < 1 || atoi(f[1]) > 4096 {
+			return core.Result{Impl: "bad-op"}
+		}
+		if e.c.closed != "" || e.t.closed != "" || e.timeout >= idleTimeout {
+			return core.Result{Impl: "bad-op"}
+		}
+		core.Count("outlive")
+		chunk := atoi(f[1])
+		var werr error
+		before := e.c.sent.n
+		for time.Since(e.openedAt) < e.timeout+400*time.Millisecond {
+			b := make([]byte, chunk)
+			for j := range b {
+				b[j] = pat(e.c.seed, e.c.sent.n+j)
+			}
+			e.c.conn.SetWriteDeadline(time.Now().Add(5 * time.Second))
+			if _, werr = e.c.conn.Write(b); werr != nil {
+				break
+			}
+			e.c.sent.add(b)
+			time.Sleep(40 * time.Millisecond)
+		}
+		e.waitDelivered()
+		td, teof := e.t.snap()
+		wrote := e.c.sent.n - before
+		// the model is told how many of these bytes were forwarded before the deadline fell
+		res := core.Result{ModelOp: fmt.Sprintf("outlive %d %d", wrote, td.n-before)}
+		if td.n < e.c.sent.n || teof || werr != nil {
+			e.c.wroteGone = true // the client→target copy has ended without the client closing
+		}
+		res.Impl = e.obs()
+		if td != e.c.sent || teof || werr != nil {
+			res.Sig = "c04:active-tunnel-cut-at-timeout"
+			res.Fail = fmt.Sprintf("the client wrote %d bytes, %d every 40 ms for %v (never idle; its writes ended with %v); the target received %d of them, end-of-stream=%v: "+
+				"the tunnel was cut when it became older than Proxy.SetTimeout(%v) - the serving loop's absolute deadline on the client connection is not an idle timeout",
+				wrote, chunk, time.Since(e.openedAt).Round(time.Millisecond), werr, td.n-before, teof, e.timeout)
+		}
 		return res
 
 	case "rd":
@@ -991,6 +1042,10 @@ func (e *ex) Do(op string) core.Result {
 			core.Count("setup-failed")
 			r.Fail, r.Sig, r.SkipModel = "", "", true
 		}
+		return r
+	}
+	if r.Sig == "c04:active-tunnel-cut-at-timeout" {
+		// not a bound-dependent verdict (the op runs until the deadline has certainly passed); an open known finding
 		return r
 	}
 	if confirmed[r.Sig] >= 2 { // this class has already reproduced 3 of 3 twice in this run: not a flake
